@@ -221,8 +221,11 @@ def check(ctx, case):
                 try:
                     ref_xpath.parse(relaxed)
                     lenient = True
-                except ref_xpath.XPathSyntaxError:
-                    pass
+                except ref_xpath.XPathSyntaxError as e2:
+                    # both leniencies of F-C02-lenient-lexing in one string: once the whitespace is removed, what remains wrong is
+                    # a '$' without a name (in a sub-expression that is not evaluated)
+                    if "'$' must be directly followed by a QName" in str(e2):
+                        return {'what': 'accepts-non-expression', 'expr': expr, 'ref': str(e2), 'g.type': r.gets('g.type'), 'also': 'lenient-whitespace'}
             if lenient:
                 return {'what': 'accepts-non-expression', 'expr': expr, 'ref': 'lenient-whitespace', 'g.type': r.gets('g.type')}
             return {'what': 'accepts-non-expression', 'expr': expr, 'ref': ref, 'g.type': r.gets('g.type'), 'g.err': r.gets('g.err')}
